@@ -40,13 +40,25 @@ pub struct Msg {
     pub size_update: Option<usize>,
     /// raw block override (already encoded, possibly invalid)
     pub raw_block: Option<Vec<u8>>,
+    /// something appended that depends on the encoder's table state at send time
+    pub tail: MsgTail,
+}
+
+#[derive(Debug, Clone, Copy, PartialEq, Eq)]
+pub enum MsgTail {
+    None,
+    /// a literal with incremental indexing whose entry is larger than the whole table:
+    /// legal, and empties the table (RFC 7541 section 4.4)
+    OversizeInsert,
+    /// an indexed field one past the last dynamic entry: a decoding error
+    IndexBeyondTable,
 }
 
 impl Msg {
     pub fn simple(fields: Vec<(&str, &str)>) -> Msg {
         let f: Vec<(Vec<u8>, Vec<u8>)> = fields.into_iter().map(|(a, b)| (a.as_bytes().to_vec(), b.as_bytes().to_vec())).collect();
         let n = f.len();
-        Msg { fields: f, choices: vec![EncChoice::plain(); n], cuts: vec![], pad: None, prio: None, size_update: None, raw_block: None }
+        Msg { fields: f, choices: vec![EncChoice::plain(); n], cuts: vec![], pad: None, prio: None, size_update: None, raw_block: None, tail: MsgTail::None }
     }
 }
 
@@ -182,6 +194,7 @@ pub struct Peer {
     pub auto_ack_settings: bool,
     pub auto_ack_ping: bool,
     pub snapshot_streams: bool,
+    pub last_oversize_len: usize,
     pub auto_respond: bool,
     pub pause: u32,
     pub barrier: Option<Gate>,
@@ -280,6 +293,7 @@ impl Peer {
             auto_ack_settings: true,
             auto_ack_ping: true,
             snapshot_streams: false,
+            last_oversize_len: 0,
             auto_respond: true,
             pause: 0,
             barrier: None,
@@ -329,6 +343,20 @@ impl Peer {
         for (i, (n, v)) in m.fields.iter().enumerate() {
             let c = m.choices.get(i).copied().unwrap_or_else(EncChoice::plain);
             self.enc.field(&mut b, n, v, c);
+        }
+        match m.tail {
+            MsgTail::None => {}
+            MsgTail::OversizeInsert => {
+                let max = self.enc.table.max_size;
+                let value = vec![b'v'; max.min(12_000)];
+                self.last_oversize_len = value.len();
+                let c = EncChoice { use_indexed: false, use_name_index: false, repr: Repr::LitIncr, huff_name: false, huff_value: false, nonminimal: 0 };
+                self.enc.field(&mut b, b"x-oversize", &value, c);
+            }
+            MsgTail::IndexBeyondTable => {
+                let idx = 62 + self.enc.table.entries.len();
+                crate::hpackref::enc_int(&mut b, 0x80, 7, idx as u64, 0);
+            }
         }
         b
     }
@@ -792,9 +820,15 @@ impl Peer {
                     let s = self.streams.entry(sid).or_default();
                     s.send_win = e_iws;
                     s.opened_by_peer = true;
+                    // the oversize tail field is part of the submitted message
                     self.send_headers(sid, &head, eos);
-                    if head.raw_block.is_none() {
-                        let f = fields_to_api_request(&head.fields);
+                    let oversize_len = self.last_oversize_len;
+                    if head.raw_block.is_none() && head.tail != MsgTail::IndexBeyondTable {
+                        let mut all = head.fields.clone();
+                        if head.tail == MsgTail::OversizeInsert {
+                            all.push((b"x-oversize".to_vec(), vec![b'v'; oversize_len]));
+                        }
+                        let f = fields_to_api_request(&all);
                         self.hist.dir(sid, 0, |d| {
                             d.s_head = Some(f);
                             if eos {
@@ -1070,6 +1104,7 @@ pub fn request_msg(t: &Tape, path: &str, method: &str, extra: &Fields, exotic: b
         prio: if t.chance(Lane::Peer, 1, 5) { Some((2 * t.draw(Lane::Peer, 10), t.chance(Lane::Peer, 1, 2), t.draw(Lane::Peer, 256) as u8)) } else { None },
         size_update: None,
         raw_block: None,
+        tail: MsgTail::None,
     }
 }
 
@@ -1088,6 +1123,7 @@ pub fn response_msg(t: &Tape, status: u16, extra: &Fields, exotic: bool) -> Msg 
         prio: None,
         size_update: None,
         raw_block: None,
+        tail: MsgTail::None,
     }
 }
 
@@ -1095,7 +1131,7 @@ pub fn trailers_msg(t: &Tape, extra: &Fields, exotic: bool) -> Msg {
     let fields: Vec<(Vec<u8>, Vec<u8>)> = extra.iter().map(|(n, v)| (n.as_bytes().to_vec(), v.clone())).collect();
     let approx: usize = fields.iter().map(|(a, b)| a.len() + b.len() + 2).sum();
     let n = fields.len();
-    Msg { fields, choices: (0..n).map(|_| gen_choice(t, exotic)).collect(), cuts: gen_cuts(t, approx), pad: None, prio: None, size_update: None, raw_block: None }
+    Msg { fields, choices: (0..n).map(|_| gen_choice(t, exotic)).collect(), cuts: gen_cuts(t, approx), pad: None, prio: None, size_update: None, raw_block: None, tail: MsgTail::None }
 }
 
 pub fn gen_bodyspec(t: &Tape, max_total: usize, padding: bool, window_hint: usize) -> BodySpec {
